@@ -392,6 +392,9 @@ class BalancingLearner(BaseLearner):
         """Remove uncomputed data from the learners."""
         for learner in self.learners:
             learner.remove_unfinished()
+        # The children's suggestions and expected losses depend on their pending points.
+        self._ask_cache.clear()
+        self._pending_loss.clear()
 
     @classmethod
     def from_product(
